@@ -4,13 +4,14 @@ import DesperModel.Proto
   Model of `desper/logic/coroutines.py` (CoroutineProcessor, CoroutinePromise).
 
   Mirrors, statement by statement (line numbers of the tree after the `fix:` commits 6ed741d —
-  D10, start right after kill — and 4dad2ae — D29, self-kill followed by return):
+  D10, start right after kill —, 4dad2ae — D29, self-kill followed by return — and 79d5dfb — D31,
+  a body raising out of process):
     __init__   coroutines.py:113-121
     start      coroutines.py:123-149   (a pending kill is cancelled; a paused generator's heap entry
                                         is voided and the generator queued as runnable)
     kill       coroutines.py:151-175
     state      coroutines.py:177-197
-    process    coroutines.py:199-262   (wake-up loop 205-224, rotation 231, run loop 234-262)
+    process    coroutines.py:199-272   (wake-up loop 205-224, rotation 231, run loop 234-272)
 
   Python objects and how they appear here
     * `_generators`, `_promises` (dicts that are only read with get / written / deleted, never
@@ -31,9 +32,11 @@ import DesperModel.Proto
       state (its frame), which survives kill/start.
     * times are `Int` in units of 1/8 s (the harness feeds `k/8.0`, exact in binary).
 
-  A step may also end in `raise X`: the exception leaves `next`, `process` is abandoned where it
-  stands (`Outcome.crashed X`, distinct from `Outcome.raised`, which is reserved for exceptions of
-  the bookkeeping itself) and the caller may go on calling `process`.
+  A step may also end in `raise X`: the exception leaves `next`; `process` drops the generator that
+  raised from every table, brings the sentinel back to the front (coroutines.py:254-263, commit
+  79d5dfb, D31) and is left with that exception (`Outcome.crashed X`, distinct from
+  `Outcome.raised`, which is reserved for exceptions of the bookkeeping itself); the caller may go
+  on calling `process`.
   Out of scope (stated in the plug-ins' ASSUMPTIONS): bodies that call `process` recursively,
   yielding non-numbers.
 -/
@@ -220,7 +223,7 @@ def runBody (U : Universe) (s : St) (g : Gen) : St × Next :=
       -- a generator object that raised is finished: later `next` calls give StopIteration(None)
       | .raise e => ({ s with fin := upd s.fin g true, log := .crashed g e :: s.log }, .crash e)
 
-/-! ### process : coroutines.py:199-262 -/
+/-! ### process : coroutines.py:199-272 -/
 
 /-- position of the record's generator in the hint (tie-break among equal deadlines) -/
 def rank (hint : List Gen) (r : Rec) : Nat :=
@@ -278,10 +281,15 @@ def rotl {α : Type} : List α → List α
   | [] => []
   | h :: t => t ++ [h]
 
-/-- `wait is not None and wait > 0` : coroutines.py:256 -/
+/-- `wait is not None and wait > 0` : coroutines.py:266 -/
 def positive : Option Int → Bool
   | some n => decide (n > 0)
   | none => false
+
+/-- `deque.rotate(-deque.index(None))`: the sentinel comes to the front, the entries that were in
+front of it go to the back, every relative order is kept -/
+def frontNone (l : List (Option Gen)) : List (Option Gen) :=
+  l.dropWhile (·.isSome) ++ l.takeWhile (·.isSome)
 
 /-- result of one iteration of the run loop -/
 inductive Iter where
@@ -289,11 +297,11 @@ inductive Iter where
   | exit
   | next (s : St)
   | raise (s : St) (e : String)
-  /-- the body raised: `process` is left at once, the tables stay as they are (the generator that
-  raised is still in front of the deque, the sentinel is not) -/
+  /-- the body raised: the generator that raised is dropped from every table, the sentinel is
+  brought back to the front and `process` is left with that exception -/
   | crash (s : St) (e : String)
 
-/-- one iteration of `while self._active_queue[0] is not None` : coroutines.py:234-262 -/
+/-- one iteration of `while self._active_queue[0] is not None` : coroutines.py:234-272 -/
 def iter (U : Universe) (s : St) : Iter :=
   match s.active with
   | [] => .raise s "IndexError"                      -- :234
@@ -326,16 +334,32 @@ def iter (U : Universe) (s : St) : Iter :=
               .next { s with values := fun q => if q = p then v else s.values q,
                              promises := upd s.promises g' none,
                              log := .stored g' p v :: s.log }   -- :251-252
-      | (s, .crash e) => .crash s e                  -- :246 not a StopIteration: propagates
+      | (s, .crash e) =>                             -- :254 any other exception
+        match s.active with                          -- :258 popleft
+        | [] => .raise s "IndexError"
+        | none :: tl' => .raise { s with active := tl' } "KeyError"
+        | some g' :: tl' =>
+          let s := { s with active := tl' }
+          match s.gens g' with
+          | none => .raise s "KeyError"              -- :259
+          | some _ =>
+            let s := { s with gens := upd s.gens g' none, kill := upd s.kill g' false }  -- :259-260
+            match s.promises g' with
+            | none => .raise s "KeyError"            -- :261
+            | some _ =>
+              let s := { s with promises := upd s.promises g' none }
+              if s.active.contains none then         -- :262 rotate(-index(None))
+                .crash { s with active := frontNone s.active } e      -- :263 raise
+              else .raise s "ValueError"
       | (s, .yield w) =>
-        if positive w then                           -- :256
-          let d := w.getD 0 + s.timer                -- :257
-          .next { s with waiting := ⟨some g, d⟩ :: s.waiting,     -- :258
-                         gens := upd s.gens g (some (some d)),    -- :259
-                         active := s.active.tail }                -- :260
-        else .next { s with active := rotl s.active }             -- :262
+        if positive w then                           -- :266
+          let d := w.getD 0 + s.timer                -- :267
+          .next { s with waiting := ⟨some g, d⟩ :: s.waiting,     -- :268
+                         gens := upd s.gens g (some (some d)),    -- :269
+                         active := s.active.tail }                -- :270
+        else .next { s with active := rotl s.active }             -- :272
 
-/-- the run loop : coroutines.py:234-262.  Fuel: the number of iterations is bounded by the
+/-- the run loop : coroutines.py:234-272.  Fuel: the number of iterations is bounded by the
 number of entries in front of the sentinel (proved: never exhausted). -/
 def loop (U : Universe) : Nat → St → St × Outcome
   | 0, s => (s, .outOfFuel)
@@ -346,7 +370,7 @@ def loop (U : Universe) : Nat → St → St × Outcome
     | .crash s e => (s, .crashed e)
     | .next s => loop U fuel s
 
-/-- `process` : coroutines.py:199-262 -/
+/-- `process` : coroutines.py:199-272 -/
 def process (U : Universe) (s : St) (dt : Int) (hint : List Gen) : St × Outcome :=
   match wakePhase s dt hint with
   | (s, .ok) =>
